@@ -43,7 +43,8 @@ def _const_int(v):
     return v.v if isinstance(v, Const) and isinstance(v.v, int) and not isinstance(v.v, bool) else None
 
 
-def model_file(trace, total):
+def model_file(trace, total, content=None):
+    """content: optional bytes of the model file (then reads hand out the real slice)"""
     state = {"pos": 0}
 
     def read(I, args, kwargs):
@@ -54,6 +55,8 @@ def model_file(trace, total):
         got = avail if size is None or size < 0 else min(size, avail)
         trace.events.append(("read", state["pos"], size, got))
         state["pos"] += got
+        if content is not None:
+            return Const(content[state["pos"] - got:state["pos"]])
         if got > 2**20:
             return Obj("Buffer", OrderedDict(size=Const(got), filled=Const(got)))  # large blocks: only the length is modelled
         return Const(bytes(got))
